@@ -346,12 +346,16 @@ def main():
     # 4. correspondence + 5. oracles
     first_disagreement = {}
     oracle_fail_examples = []
-    for unit in cfg["units"]:
-        ops, mod, err = run_unit(unit, args.seed, tier, timeout=cfg.get("timeout", 3600))
+    # thorough tier: every unit under several seeds (AGV_THOROUGH_SEEDS, default 3)
+    n_seeds = int(os.environ.get("AGV_THOROUGH_SEEDS", "3")) if tier == "thorough" else 1
+    seeds_used = [args.seed + i for i in range(n_seeds)]
+    for unit, useed in [(u, sd) for sd in seeds_used for u in cfg["units"]]:
+        oname = f"correspondence {unit}" + ("" if useed == args.seed else f" seed={useed}")
+        ops, mod, err = run_unit(unit, useed, tier, timeout=cfg.get("timeout", 3600))
         if err:
             log(err)
-            obligations.append((f"correspondence {unit}", False))
-            first_disagreement.setdefault(unit, {"error": err})
+            obligations.append((oname, False))
+            first_disagreement.setdefault(unit, {"error": err, "seed": useed})
             continue
         dis = 0
         with open(ops) as fo, open(mod) as fm:
@@ -408,11 +412,11 @@ def main():
                 if m != rec["r"]:
                     dis += 1
                     if unit not in first_disagreement:
-                        first_disagreement[unit] = {"op": {"op": rec["op"], "a": rec["a"]}, "impl": rec["r"], "model": m}
+                        first_disagreement[unit] = {"op": {"op": rec["op"], "a": rec["a"]}, "impl": rec["r"], "model": m, "seed": useed}
                 elif len(samples) < 5 and nontrivial(rec["op"], rec) and (stats["evaluations"] % 997 == 1 or len(samples) == 0):
                     samples.append({"op": rec["op"], "a": rec["a"], "impl": rec["r"], "model": m})
         stats["model_disagreements"] += dis
-        obligations.append((f"correspondence {unit}", dis == 0))
+        obligations.append((oname, dis == 0))
         for p_ in (ops, mod):
             try:
                 os.unlink(p_)
@@ -480,6 +484,7 @@ def main():
             "model_disagreements": stats["model_disagreements"],
             "samples": samples or [{"note": "no sample captured"}],
             "exhaustive": False,
+            "seeds": seeds_used,
         },
         "assumptions": cfg.get("assumptions", []),
         "wall_s": round(wall, 2),
